@@ -141,17 +141,30 @@ def check_point(h, p, alg, part):
 
 def _equiv_point(h, p, alg, part, F, n, rows, opb, enc):
     z3 = alg.z3
-    spec = alg._b(h.spec(alg, p, F))
-    s = _solver(alg)
-    s.add(z3.Xor(enc, spec))
-    r = _check(s, part)
-    if r == 'sat':
-        a = model_to_list(alg, s.model(), n)
-        part.case(h.name, 'spec_mismatch', dict(p, _assignment=a),
-                  'formula and documented meaning differ on this assignment')
-        return
-    if r != 'unsat':
-        part.errors.append('%s %s: solver answered %s on the equivalence query' % (h.name, p, r))
+    if getattr(h, 'spec_alternatives', None) is not None:
+        specs = [alg._b(t) for t in h.spec_alternatives(alg, p, F)]
+    else:
+        specs = [alg._b(h.spec(alg, p, F))]
+    wits = []
+    spec = None
+    for sp in specs:
+        s = _solver(alg)
+        s.add(z3.Xor(enc, sp))
+        r = _check(s, part)
+        if r == 'unsat':
+            spec = sp
+            break
+        if r != 'sat':
+            part.errors.append('%s %s: solver answered %s on the equivalence query' % (h.name, p, r))
+            return
+        wits.append(model_to_list(alg, s.model(), n))
+    if spec is None:
+        if len(specs) == 1:
+            part.case(h.name, 'spec_mismatch', dict(p, _assignment=wits[0]),
+                      'formula and documented meaning differ on this assignment')
+        else:
+            part.case(h.name, 'spec_mismatch', dict(p, _assignments=wits),
+                      'formula differs from every admissible reading of the documentation (one assignment per reading)')
         return
     # oracle self-test: a one-literal / one-row mutant of the encoding must be told apart
     for mut in _mutants(rows, opb):
@@ -234,46 +247,67 @@ def _schema_point(h, p, alg, part, F, n, rows, opb, enc):
                 part.case(h.name, 'satisfiability', dict(p, _assignment=a, _expected_sat=not exp),
                           'formula is %s, documented as %s' % (r, 'a contradiction' if exp else 'satisfiable'))
                 return
-    # none extra: every row is a consequence of one documented schema
-    owner = {}          # row index -> list of schema indices implying it
-    wit_not_implied = {}  # (row, schema) -> assignment with schema true, row false
+    res = _schema_verdict(alg, schemas, rows, opb, n, part, 'unsat_q')
+    if res == 'unknown':
+        part.errors.append('%s %s: unknown in schema query' % (h.name, p))
+        return
+    if res is not None:
+        kind, data, what = res
+        part.case(h.name, kind, dict(p, **data), what)
+        return
+    part.counts['schemas_checked'] += len(schemas)
+    # oracle self-test on one point in four: a one-literal / one-row mutant must fail the schema test
+    if __import__("zlib").crc32(repr(sorted(p.items())).encode()) % 4 == 0:
+        for mut in _mutants(rows, opb):
+            part.counts['selftest_mutants'] += 1
+            if _schema_verdict(alg, schemas, mut, opb, n, part, 'selftest_q') not in (None, 'unknown'):
+                part.counts['selftest_distinguished'] += 1
+
+
+def _schema_verdict(alg, schemas, rows, opb, n, part, ckey):
+    """None if `rows` are exactly the documented axioms (none extra, none missing), else (kind, data, what)."""
+    z3 = alg.z3
+
+    def chk(*terms):
+        s = _solver(alg)
+        s.add(*terms)
+        if ckey == 'unsat_q':
+            r = _check(s, part)
+        else:
+            t = time.time()
+            r = str(s.check())
+            part.solver_s += time.time() - t
+            part.counts[ckey] += 1
+        return r, s
+    owner = {}
+    wit_not_implied = {}
     enc_rows_ = [_row(alg, r, opb) for r in rows]
     for i, er in enumerate(enc_rows_):
         owner[i] = []
         for gi, (nm, g) in enumerate(schemas):
-            s = _solver(alg)
-            s.add(g, z3.Not(er))
-            r = _check(s, part)
+            r, s = chk(g, z3.Not(er))
             if r == 'unsat':
                 owner[i].append(gi)
             elif r == 'sat':
                 wit_not_implied[(i, gi)] = model_to_list(alg, s.model(), n)
             else:
-                part.errors.append('%s %s: unknown in none-extra query' % (h.name, p))
-                return
+                return 'unknown'
         if not owner[i]:
-            part.case(h.name, 'extra_row', dict(p, _row=i, _witnesses={str(gi): wit_not_implied[(i, gi)] for gi in range(len(schemas))}),
-                      'row %d %s is not a consequence of any documented axiom schema' % (i, rows[i]))
-            return
-    # none missing: the rows implied by schema g together entail g
+            return ('extra_row', {'_row': i, '_witnesses': {str(gi): wit_not_implied[(i, gi)] for gi in range(len(schemas))}},
+                    'row %d %s is not a consequence of any documented axiom schema' % (i, rows[i]))
     for gi, (nm, g) in enumerate(schemas):
         mine = [enc_rows_[i] for i in range(len(rows)) if gi in owner[i]]
-        s = _solver(alg)
-        s.add(alg.And(mine), z3.Not(g))
-        r = _check(s, part)
+        r, s = chk(alg.And(mine), z3.Not(g))
         if r == 'unknown':
-            part.errors.append('%s %s: unknown in none-missing query' % (h.name, p))
-            return
+            return 'unknown'
         if r == 'sat':
             a = model_to_list(alg, s.model(), n)
             pa = PyAlg(a)
             fals = [i for i, rr in enumerate(rows) if not _row(pa, rr, opb)]
-            part.case(h.name, 'missing_axiom', dict(p, _schema=gi, _schema_name=nm, _assignment=a,
-                                                    _falsified={str(i): wit_not_implied[(i, gi)] for i in fals}),
-                      'axiom schema %r is not enforced: the assignment violates it but satisfies every row that follows from it' % nm)
-            return
-    # self-test: dropping a row must break none-missing somewhere (checked on the last row only)
-    part.counts['schemas_checked'] += len(schemas)
+            return ('missing_axiom', {'_schema': gi, '_schema_name': nm, '_assignment': a,
+                                      '_falsified': {str(i): wit_not_implied[(i, gi)] for i in fals}},
+                    'axiom schema %r is not enforced: the assignment violates it but satisfies every row that follows from it' % nm)
+    return None
 
 
 def shard_fn(items, part):
@@ -322,6 +356,18 @@ def replay(case):
     if kind == 'labels':
         got = list(F.all_variable_labels())
         return got != list(h.labels(p)), 'labels %s' % got[:10]
+    if kind == 'spec_mismatch' and '_assignments' in inp:
+        msgs = []
+        for i, a in enumerate(inp['_assignments']):
+            if len(a) != n:
+                return False, 'assignment size'
+            alg = PyAlg(a)
+            fv = bool(enc_rows(alg, rows, opb))
+            sv = bool(h.spec_alternatives(alg, p, F)[i])
+            if fv == sv:
+                return False, 'reading %d agrees on its witness' % i
+            msgs.append('reading %d: formula %s, spec %s under %s' % (i, fv, sv, a))
+        return True, '; '.join(msgs)
     if kind == 'spec_mismatch':
         a = inp['_assignment']
         if len(a) != n:
